@@ -140,6 +140,29 @@ func c02Doerner(t *vk.T, i int) {
 		return
 	}
 	t.Obs("deliveries", int64(net.Steps))
+	// the OT base correlation established by key generation: K_Delta[i] = K_{Delta_i}[i] for all 128 indices
+	if k.S.Setup == nil || k.R.Setup == nil {
+		t.Violation("doerner|ot-setup-missing", "a party finished key generation without an OT setup")
+	} else {
+		delta := fieldRows(k.S.Setup, "_Delta")[0]
+		kd := fieldRows(k.S.Setup, "_K_Delta")
+		k0 := fieldRows(k.R.Setup, "_K_0")
+		k1 := fieldRows(k.R.Setup, "_K_1")
+		okc := len(kd) == 128 && len(k0) == 128 && len(k1) == 128
+		for j := 0; okc && j < 128; j++ {
+			want := k0[j]
+			if otBit(j, delta) == 1 {
+				want = k1[j]
+			}
+			if string(kd[j]) != string(want) || string(k0[j]) == string(k1[j]) {
+				okc = false
+			}
+		}
+		t.Obs("ot_base_correlations_checked", 1)
+		if !okc {
+			t.Violation("doerner|ot-base-correlation", "after key generation the sender's K_Delta is not the receiver's K_{Delta_i} for every index")
+		}
+	}
 	if reportMaterial(t, "doerner", fx.SharesOfDoerner(k), 2, 1, fmt.Sprintf("alphabet=%d|sched=%s|receiver-first=%v", i%4, sname, i%2 == 0)) && i < 2 {
 		t.Sample(map[string]any{"protocol": "doerner", "receiver": string(rid), "sender": string(sid), "scheduler": sname})
 	}
